@@ -60,6 +60,7 @@ type Event struct {
 }
 
 type Thread struct {
+	Atomic bool // runs entirely, without preemption, in round 0 (sequential adversary)
 	ID     int
 	Fn     FuncV
 	Events []*Event
@@ -84,6 +85,11 @@ func (e *Engine) markShared(st *State, s SliceV, align Value, site string) {
 
 func (e *Engine) spawn(st *State, f FuncV, site string) {
 	th := &Thread{ID: len(e.Threads), Fn: f, Site: site}
+	e.Threads = append(e.Threads, th)
+}
+
+func (e *Engine) spawnAtomic(st *State, f FuncV, site string) {
+	th := &Thread{ID: len(e.Threads), Fn: f, Site: site, Atomic: true}
 	e.Threads = append(e.Threads, th)
 }
 
@@ -445,6 +451,10 @@ func (e *Engine) join(st *State, site string) {
 		}
 		th.Cs = make([]smt.Term, R)
 		for r := 0; r < R; r++ {
+			if th.Atomic {
+				th.Cs[r] = c.BV(uint64(n), csW)
+				continue
+			}
 			th.Cs[r] = c.Var(fmt.Sprintf("cs_t%d_r%d", th.ID, r), csW)
 			if r > 0 {
 				cons = append(cons, c.Ule(th.Cs[r-1], th.Cs[r]))
